@@ -180,11 +180,17 @@ def _dir_image(env):
     return files, dirs
 
 
-def h_read_only(cut: int, template: str, torn: bool) -> None:
+def h_read_only(cut: int, template: str, torn: bool, idx: str = 'own') -> None:
     """Read-only open (optionally of a file ending in an unfinished transaction): no file is
     modified, every writer raises ReadOnlyError, reads agree with the committed history."""
     with untraced():
         from ZODB.POSException import ReadOnlyError
+        foreign = None
+        if idx == 'foreign':
+            # an index file that loads but does not belong to this data file (it is rejected at open)
+            envf, sf, hf = T.build_file('T2L')
+            sf.close()
+            foreign = bytes(envf.fs.content(DATA + '.index'))
         env, s, h = T.build_file(template)
         base = len(env.fs.content(DATA))
         full = None
@@ -196,6 +202,10 @@ def h_read_only(cut: int, template: str, torn: bool) -> None:
             full = bytes(env.fs.content(DATA))
             s.tpc_abort(t)
         s.close()
+        if foreign is not None:
+            env.fs.put(DATA + '.index', foreign)
+        elif idx == 'none':
+            env.fs.os.remove(DATA + '.index')
     short_tail = False
     if torn:
         assume(base < cut <= len(full))
@@ -334,8 +344,8 @@ HARNESSES = [
             symbolic='cut (length of the torn tail, symbolic file length); all 9 writer API calls are tried on every path',
             bounds='templates T1, T4', oracle='operation log + directory image + RevStore battery',
             code=['FileStorage.__init__ (read_only)', 'read_index (read_only branches)', 'store/tpc_begin/... read-only guards'],
-            quick=dict(timeout=170, shards=shards(template=['T1'], torn=[False, True])),
-            thorough=dict(timeout=900, shards=shards(template=['T1', 'T4', 'T2'], torn=[False, True]))),
+            quick=dict(timeout=170, shards=shards(template=['T1'], torn=[False, True]) + shards(template=['T1'], torn=[False], idx=['foreign', 'none'])),
+            thorough=dict(timeout=900, shards=shards(template=['T1', 'T4', 'T2'], torn=[False, True], idx=['own', 'foreign', 'none']))),
     Harness('read_only_live', h_read_only_live,
             decides='a read-only open placed at any file-operation of a writer\'s commit sees a committed prefix and changes nothing',
             symbolic='at (injection point over the writer\'s file operations)', bounds='template T1 + one commit',
